@@ -1,0 +1,136 @@
+//go:build verif
+
+// Contracts for the shuttermint ABCI application, checked by /verif/govc (see /verif/DESIGN.md).
+// This file contains comments only; it adds no code to any build.
+package app
+
+// ---- C12: validator updates ---------------------------------------------------------------------------
+//
+//@ pred pw(m, k) := ite(has(m, k), m[k], 0)
+//@ // the diff contains exactly the keys whose power changes (removed keys with power 0)
+//@ pred isDiff(d, o, n) := (forall k Str :: has(d, k) <==> ((has(o, k) && !has(n, k)) || (has(n, k) && pw(o, k) != n[k]))) && (forall k Str :: has(d, k) ==> d[k] == pw(n, k))
+//@ pred positive(m) := forall k Str :: has(m, k) ==> m[k] > 0
+//@ // Tendermint applies an update list by removing validators with power 0 and setting the others
+//@ pred inAfter(o, d, k) := ite(has(d, k), d[k] != 0, has(o, k))
+//@ pred pwAfter(o, d, k) := ite(has(d, k), d[k], pw(o, k))
+//@
+//@ func DiffPowermaps
+//@   ensures ret0 != nil && fresh(ret0) && isDiff(ret0, oldpm, newpm)
+//@   // applying the diff the way Tendermint does yields exactly the new set (for positive powers) ...
+//@   ensures (positive(oldpm) && positive(newpm)) ==> (forall k Str :: (inAfter(oldpm, ret0, k) <==> has(newpm, k)) && (has(newpm, k) ==> pwAfter(oldpm, ret0, k) == newpm[k]))
+//@   // ... and never removes a validator that is not present
+//@   ensures forall k Str :: (has(ret0, k) && ret0[k] == 0 && positive(newpm)) ==> has(oldpm, k)
+//@   invariant@1 res != nil && fresh(res)
+//@   invariant@1 forall k Str :: visited(k) ==> has(oldpm, k)
+//@   invariant@1 forall k Str :: has(res, k) <==> (visited(k) && has(oldpm, k) && !has(newpm, k))
+//@   invariant@1 forall k Str :: has(res, k) ==> res[k] == 0
+//@   invariant@2 res != nil && fresh(res)
+//@   invariant@2 forall k Str :: visited(k) ==> has(newpm, k)
+//@   invariant@2 forall k Str :: has(res, k) <==> ((has(oldpm, k) && !has(newpm, k)) || (visited(k) && has(newpm, k) && pw(oldpm, k) != newpm[k]))
+//@   invariant@2 forall k Str :: has(res, k) ==> res[k] == pw(newpm, k)
+//@
+//@ // more than two thirds: ret validators out of n leave fewer than a third outside
+//@ func numRequiredTransitionValidators
+//@   requires config != nil
+//@   ensures len(config.Keypers) == 0 ==> ret0 == 0
+//@   ensures len(config.Keypers) > 0 ==> (ret0 >= config.Threshold && 3 * ret0 > 2 * len(config.Keypers))
+//@   ensures len(config.Keypers) > 0 && config.Threshold <= len(config.Keypers) ==> ret0 <= len(config.Keypers)
+//@
+//@ // number of list positions 0..n-1 whose address is in the set (list positions, as the statement counts keypers)
+//@ recfn cntIn(dom SetInt, arr ArrArr, off Int, n Int) Int := ite(n <= 0, 0, cntIn(dom, arr, off, n - 1) + ite(dom[keyof(arr[off + n - 1])], 1, 0))
+//@ pred checkedIn(app, keypers) := cntIn(mapdom(app.Identities), elemsof(keypers), offof(keypers), len(keypers))
+//@ func (*ShutterApp).countCheckedInKeypers
+//@   requires app != nil && app.Identities != nil
+//@   ensures ret0 == checkedIn(app, keypers)
+//@   invariant numCheckedIn == cntIn(mapdom(app.Identities), elemsof(keypers), offof(keypers), rangeindex + 1)
+//@   invariant numCheckedIn <= rangeindex + 1
+//@
+//@ // power map of a keyper list: 10 per keyper, parked on the placeholder key while a keyper has not
+//@ // checked in; every present key has positive power
+//@ pred valKeyOf(app, k, placeholder) := ite(has(app.Identities, k), app.Identities[k].Ed25519pubkey, placeholder)
+//@ func (*ShutterApp).makePowermap
+//@   requires app != nil && len(keypers) <= 1048576
+//@   ensures ret0 != nil && fresh(ret0) && positive(ret0)
+//@   ensures forall p Str :: has(ret0, p) ==> (exists i :: 0 <= i && i < len(keypers) && valKeyOf(app, keypers[i], NonExistentValidator.Ed25519pubkey) == p)
+//@   ensures forall i :: 0 <= i && i < len(keypers) ==> has(ret0, valKeyOf(app, keypers[i], NonExistentValidator.Ed25519pubkey))
+//@   ensures forall p Str :: has(ret0, p) ==> (ret0[p] >= 10 && ret0[p] <= 10 * len(keypers))
+//@   invariant pm != nil && fresh(pm)
+//@   invariant forall p Str :: has(pm, p) ==> (exists j :: 0 <= j && j <= rangeindex && valKeyOf(app, keypers[j], NonExistentValidator.Ed25519pubkey) == p)
+//@   invariant forall j :: 0 <= j && j <= rangeindex ==> has(pm, valKeyOf(app, keypers[j], NonExistentValidator.Ed25519pubkey))
+//@   invariant forall p Str :: has(pm, p) ==> (pm[p] >= 10 && pm[p] <= 10 * (rangeindex + 1))
+//@
+//@ // validator update lists
+//@ pred vuKeyPtr(v) := as(v.PubKey.Sum, "*crypto.PublicKey_Ed25519")
+//@ pred vuWf(v) := typeis(v.PubKey.Sum, "*crypto.PublicKey_Ed25519") && vuKeyPtr(v) != nil
+//@ pred vuKey(v) := content(vuKeyPtr(v).Ed25519)
+//@
+//@ // A-sort: sort.Slice with this comparison yields a permutation (sortPerm with inverse sortInv, one pair
+//@ // of functions per call) ordered by key bytes
+//@ ufn sortPerm(Int, Int) Int
+//@ ufn sortInv(Int, Int) Int
+//@ func SortValidators
+//@   trusted
+//@   assigns elems(types.ValidatorUpdate)
+//@   ensures forall i :: 0 <= i && i < len(validators) ==> (0 <= sortPerm(old(allocmark()), i) && sortPerm(old(allocmark()), i) < len(validators) && sortInv(old(allocmark()), sortPerm(old(allocmark()), i)) == i)
+//@   ensures forall i :: 0 <= i && i < len(validators) ==> (0 <= sortInv(old(allocmark()), i) && sortInv(old(allocmark()), i) < len(validators) && sortPerm(old(allocmark()), sortInv(old(allocmark()), i)) == i)
+//@   ensures forall i :: 0 <= i && i < len(validators) ==> (validators[i].Power == old(validators[sortPerm(allocmark(), i)].Power) && validators[i].PubKey.Sum == old(validators[sortPerm(allocmark(), i)].PubKey.Sum))
+//@   ensures forall j :: 0 <= j && j < len(validators) ==> (validators[sortInv(old(allocmark()), j)].Power == old(validators[j].Power) && validators[sortInv(old(allocmark()), j)].PubKey.Sum == old(validators[j].PubKey.Sum))
+//@   ensures forall i, j :: 0 <= i && i < j && j < len(validators) ==> !bytesLT(vuKey(validators[j]), vuKey(validators[i]))
+//@
+//@ // C12/C09: the update list is a function of the power map only: strictly sorted by key (hence free of
+//@ // duplicates), one entry per map key with that key's power - for every iteration order of the map
+//@ func (Powermap).ValidatorUpdates
+//@   ensures forall i :: 0 <= i && i < len(ret0) ==> (vuWf(ret0[i]) && (exists k Str :: has(pm, k) && vuKey(ret0[i]) == str_bytes(k) && ret0[i].Power == pm[k]))
+//@   ensures forall k Str :: has(pm, k) ==> (exists i :: 0 <= i && i < len(ret0) && vuKey(ret0[i]) == str_bytes(k))
+//@   ensures forall i, j :: 0 <= i && i < j && j < len(ret0) ==> bytesLT(vuKey(ret0[i]), vuKey(ret0[j]))
+//@   invariant len(res) == 0 || fresh(res)
+//@   invariant forall k Str :: visited(k) ==> has(pm, k)
+//@   invariant forall i :: 0 <= i && i < len(res) ==> (vuWf(res[i]) && fresh(vuKeyPtr(res[i])) && (exists k Str :: visited(k) && vuKey(res[i]) == str_bytes(k) && res[i].Power == pm[k]))
+//@   invariant forall k Str :: visited(k) ==> (exists i :: 0 <= i && i < len(res) && vuKey(res[i]) == str_bytes(k))
+//@   invariant forall i, j :: 0 <= i && i < j && j < len(res) ==> vuKey(res[i]) != vuKey(res[j])
+//@
+//@ // what makePowermap returns for a keyper list (its postcondition as a predicate)
+//@ pred pmOf(pm, app, keypers) := pm != nil && positive(pm) && (forall p Str :: has(pm, p) ==> (exists i :: 0 <= i && i < len(keypers) && valKeyOf(app, keypers[i], NonExistentValidator.Ed25519pubkey) == p)) && (forall i :: 0 <= i && i < len(keypers) ==> has(pm, valKeyOf(app, keypers[i], NonExistentValidator.Ed25519pubkey)))
+//@ pred cfgActive(app, i) := app.Configs[i].Started && app.Configs[i].ValidatorsUpdated
+//@ pred wfConfigs(app) := forall i :: 0 <= i && i < len(app.Configs) ==> (app.Configs[i] != nil && len(app.Configs[i].Keypers) <= 1048576)
+//@
+//@ // the intended validator set: that of the newest started configuration whose check-in quorum is met,
+//@ // otherwise the current one
+//@ func (*ShutterApp).CurrentValidators
+//@   requires app != nil && wfConfigs(app)
+//@   ensures (forall i :: 0 <= i && i < len(app.Configs) ==> !cfgActive(app, i)) ==> ret0 == app.Validators
+//@   ensures forall i :: (0 <= i && i < len(app.Configs) && cfgActive(app, i) && (forall j :: i < j && j < len(app.Configs) ==> !cfgActive(app, j))) ==> (fresh(ret0) && pmOf(ret0, app, app.Configs[i].Keypers))
+//@   invariant 0 - 1 <= i && i < len(app.Configs)
+//@   invariant forall j :: i < j && j < len(app.Configs) ==> !cfgActive(app, j)
+//@
+//@ // ---- EndBlock (C11 start quorum, C12 validator transition) -------------------------------------------
+//@ // number of list positions whose keyper reported a main-chain block >= act
+//@ recfn cntSeen(dom SetInt, vals Arr, arr ArrArr, off Int, n Int, act Int) Int := ite(n <= 0, 0, cntSeen(dom, vals, arr, off, n - 1, act) + ite(dom[keyof(arr[off + n - 1])] && vals[keyof(arr[off + n - 1])] >= act, 1, 0))
+//@ pred seenBy(app, keypers, act) := cntSeen(mapdom(app.BlocksSeen), mapvals(app.BlocksSeen), elemsof(keypers), offof(keypers), len(keypers), act)
+//@ pred prevIdx(j) := ite(j > 0, j - 1, 0)
+//@ pred appCfgInv(app) := app != nil && app.Identities != nil && app.BlocksSeen != nil && wfConfigs(app) && (forall a, b :: 0 <= a && a < b && b < len(app.Configs) ==> app.Configs[a] != app.Configs[b])
+//@ // a configuration is newly marked started only with a block-seen quorum of the PRECEDING configuration
+//@ pred startOK(app, j) := (app.Configs[j].Started && !old(app.Configs[j].Started)) ==> seenBy(app, app.Configs[prevIdx(j)].Keypers, app.Configs[j].ActivationBlockNumber) >= app.Configs[prevIdx(j)].Threshold
+//@ // its validators take over only when it is started and enough of its keypers have checked in: at least
+//@ // the threshold and more than two thirds
+//@ pred updateOK(app, j) := (app.Configs[j].ValidatorsUpdated && !old(app.Configs[j].ValidatorsUpdated)) ==> (app.Configs[j].Started && (len(app.Configs[j].Keypers) > 0 ==> (checkedIn(app, app.Configs[j].Keypers) >= app.Configs[j].Threshold && 3 * checkedIn(app, app.Configs[j].Keypers) > 2 * len(app.Configs[j].Keypers))))
+//@ pred flagsMonotone(app, j) := (old(app.Configs[j].Started) ==> app.Configs[j].Started) && (old(app.Configs[j].ValidatorsUpdated) ==> app.Configs[j].ValidatorsUpdated)
+//@
+//@ func (*ShutterApp).EndBlock
+//@   requires appCfgInv(app)
+//@   assigns shutterevents.BatchConfig.Started, shutterevents.BatchConfig.ValidatorsUpdated, app.ShutterApp.Validators, app.ShutterApp.LastBlockHeight
+//@   ensures forall j :: 0 <= j && j < len(app.Configs) ==> startOK(app, j)
+//@   ensures forall j :: 0 <= j && j < len(app.Configs) ==> updateOK(app, j)
+//@   ensures forall j :: 0 <= j && j < len(app.Configs) ==> flagsMonotone(app, j)
+//@   ensures (forall i :: 0 <= i && i < len(app.Configs) ==> !cfgActive(app, i)) ==> app.Validators == old(app.Validators)
+//@   ensures forall i :: (0 <= i && i < len(app.Configs) && cfgActive(app, i) && (forall j :: i < j && j < len(app.Configs) ==> !cfgActive(app, j))) ==> pmOf(app.Validators, app, app.Configs[i].Keypers)
+//@   ensures !app.DevMode ==> (forall a, b :: 0 <= a && a < b && b < len(ret0.ValidatorUpdates) ==> bytesLT(vuKey(ret0.ValidatorUpdates[a]), vuKey(ret0.ValidatorUpdates[b])))
+//@   ensures !app.DevMode ==> (forall a :: 0 <= a && a < len(ret0.ValidatorUpdates) ==> (vuWf(ret0.ValidatorUpdates[a]) && (exists k Str :: vuKey(ret0.ValidatorUpdates[a]) == str_bytes(k) && ((has(old(app.Validators), k) && !has(app.Validators, k) && ret0.ValidatorUpdates[a].Power == 0) || (has(app.Validators, k) && pw(old(app.Validators), k) != app.Validators[k] && ret0.ValidatorUpdates[a].Power == app.Validators[k])))))
+//@   invariant@1 len(events) == 0 || fresh(events)
+//@   invariant@1 forall j :: rangeindex < j && j < len(app.Configs) ==> (app.Configs[j].Started == old(app.Configs[j].Started) && app.Configs[j].ValidatorsUpdated == old(app.Configs[j].ValidatorsUpdated))
+//@   invariant@1 forall j :: 0 <= j && j <= rangeindex && rangeindex + 1 < len(app.Configs) ==> app.Configs[j] != app.Configs[rangeindex + 1]
+//@   invariant@1 forall j :: 0 <= j && j <= rangeindex ==> startOK(app, j)
+//@   invariant@1 forall j :: 0 <= j && j <= rangeindex ==> updateOK(app, j)
+//@   invariant@1 forall j :: 0 <= j && j <= rangeindex ==> flagsMonotone(app, j)
+//@   invariant@2 numVotes == cntSeen(mapdom(app.BlocksSeen), mapvals(app.BlocksSeen), elemsof(app.Configs[allowanceConfigIndex].Keypers), offof(app.Configs[allowanceConfigIndex].Keypers), rangeindex + 1, config.ActivationBlockNumber)
+//@   invariant@2 numVotes <= rangeindex + 1
